@@ -84,7 +84,7 @@ def listChildrenOK (k : Kind) (cs : List ANode) : Bool :=
       if c.kind == .code then
         (match c with
           | .inner _ ccs ca => !ca.disabled && ccs.all fun x => isExpr x || isPassable x
-          | .leaf _ _ _ => false)
+          | .leaf _ t ca => !ca.disabled && t == "")
       else isPassable c
   | .contentBlock => cs.map (·.kind) == [.leftBracket, .markup, .rightBracket]
   | .strong => cs.map (·.kind) == [.star, .markup, .star]
@@ -179,7 +179,7 @@ def Kind.isMathFlow : Kind → Bool
 mutual
 /-- The covered fragment (decidable), for contexts that are not in math mode. -/
 def inFrag : ANode → Bool
-  | .leaf k t a => ANode.tokensAreLeaves (.leaf k t a) && (!k.isExpr || k.isFragLeaf || (k == .parbreak && !a.disabled) || k == .none_ || k == .auto_) && (!k.isInnerKind || (k == .markup && t == ""))
+  | .leaf k t a => ANode.tokensAreLeaves (.leaf k t a) && (!k.isExpr || k.isFragLeaf || (k == .parbreak && !a.disabled) || k == .none_ || k == .auto_) && (!k.isInnerKind || ((k == .markup || k == .code) && t == ""))
   | .inner k cs _ =>
     ((k.isFragFlow || k.isFragElem || (k.isFragList && listChildrenOK k cs) || k == .code ||
       ((k.isFragWrap || k == .markup || k == .args || k == .funcCall || k == .params || k == .destructuring || k == .raw || k == .ref) && listChildrenOK k cs) || k.isFragItem || k == .setRule || k == .closure || k == .forLoop || (k == .binary && binChildrenOK cs) || (k == .fieldAccess && dotChildrenOK cs)) || (k == .equation && eqShapeB cs)) &&
@@ -193,7 +193,7 @@ def inFragEq : List ANode → Bool
   | c :: cs => (if c.kind == .math then inFragM c else inFrag c) && inFragEq cs
 /-- The covered fragment for math mode. -/
 def inFragM : ANode → Bool
-  | .leaf k t a => ANode.tokensAreLeaves (.leaf k t a) && (!k.isExpr || k.isFragLeaf || (k == .parbreak && !a.disabled) || k == .none_ || k == .auto_) && (!k.isInnerKind || (k == .markup && t == ""))
+  | .leaf k t a => ANode.tokensAreLeaves (.leaf k t a) && (!k.isExpr || k.isFragLeaf || (k == .parbreak && !a.disabled) || k == .none_ || k == .auto_) && (!k.isInnerKind || ((k == .markup || k == .code) && t == ""))
   | .inner k cs _ =>
     if k == .funcCall then mathCallShapeB cs && inFragMCallL cs else
     (k.isMathFlow || k == .math || (k == .mathPrimes && cs.all (fun c => c.kind == .prime)) ||
@@ -1148,7 +1148,7 @@ theorem convExpr_frag (e : Env) (r : Rec) (hr : RecOK r Q) (hrM : RecOKM r QM) (
           have h1 := hq.1
           cases k <;> simp_all [Kind.isFragFlow, Kind.isFragElem, Kind.isFragList, Kind.isFragWrap, Kind.isFragItem, Kind.isExpr]
         obtain ⟨sp0, sp1, sp2, sp3, sp4, sp5⟩ := soft_paren e
-        have hspec : ∀ (hcb : k = .codeBlock → ∀ c ∈ cs, c.kind = .code → ∃ ccs ca, c = .inner .code ccs ca ∧ ca.disabled = false),
+        have hspec : ∀ (hcb : k = .codeBlock → ∀ c ∈ cs, c.kind = .code → c.attrs.disabled = false),
             specAll (.inner k cs a) = specAllL cs := by
           intro hcb
           have hv : isVerbatimNode k cs a = false := by
@@ -1160,32 +1160,39 @@ theorem convExpr_frag (e : Env) (r : Rec) (hr : RecOK r Q) (hrM : RecOKM r QM) (
             | some c =>
               have hm := List.mem_of_find?_eq_some hf
               have hck : c.kind = .code := by simpa using List.find?_some hf
-              obtain ⟨ccs, ca, rfl, hdis⟩ := hcb hk c hm hck
-              simp [ANode.attrs, hdis]
+              simp [hcb hk c hm hck]
           exact specAll_inner k cs a hv (by intro h; rw [h] at hlistk; simp [Kind.isFragList] at hlistk)
         obtain ⟨hkl, hch⟩ := hlistk
         cases k <;> simp only [Kind.isFragList, Bool.false_eq_true] at hkl
         · -- code block
-          have hcode : ∀ c ∈ cs, c.kind = .code → ∃ ccs ca, c = .inner .code ccs ca ∧ ca.disabled = false ∧
-              (ccs.all fun x => isExpr x || isPassable x) = true := by
+          have hcode : ∀ c ∈ cs, c.kind = .code → c.attrs.disabled = false ∧ specAll c = specAllL c.children ∧
+              (c.children.all fun x => isExpr x || isPassable x) = true ∧ (∀ x ∈ c.children, inFrag x = true) := by
             intro c hc hk
             simp only [listChildrenOK, List.all_eq_true] at hch
             have := hch c hc
             simp only [hk, beq_self_eq_true, ↓reduceIte] at this
+            have hcq := inFragL_mem hq.2 hc
             cases c with
-            | leaf _ _ _ => simp at this
+            | leaf k' t ca =>
+              simp only [ANode.kind] at hk; subst hk
+              simp only [Bool.and_eq_true, Bool.not_eq_true', beq_iff_eq] at this
+              obtain ⟨hdis, rfl⟩ := this
+              exact ⟨hdis, by rw [specAll_empty_code_leaf]; rfl, rfl, fun x hx => by cases hx⟩
             | inner k' ccs ca =>
               simp only [ANode.kind] at hk; subst hk
               simp only [Bool.and_eq_true, Bool.not_eq_true'] at this
-              exact ⟨ccs, ca, rfl, this.1, this.2⟩
+              rw [inFrag_inner_ne _ _ _ (by decide)] at hcq
+              simp only [Bool.and_eq_true] at hcq
+              refine ⟨this.1, ?_, this.2, fun x hx => inFragL_mem hcq.2 hx⟩
+              exact specAll_inner .code ccs ca (by simp [isVerbatimNode, this.1]) (by decide)
           have hnotcode : ∀ c ∈ cs, c.kind ≠ .code → isPassable c = true := by
             intro c hc hk
             simp only [listChildrenOK, List.all_eq_true] at hch
             have := hch c hc
             have hk' : (c.kind == .code) = false := by simpa using hk
             simpa [hk'] using this
-          rw [hspec (fun _ c hc hk => by obtain ⟨ccs, ca, h1, h2, _⟩ := hcode c hc hk; exact ⟨ccs, ca, h1, h2⟩)]
-          rw [← specAllL_flattenCode cs (fun c hc hk => by obtain ⟨ccs, ca, h1, h2, _⟩ := hcode c hc hk; exact ⟨ccs, ca, h1, h2⟩)]
+          rw [hspec (fun _ c hc hk => (hcode c hc hk).1)]
+          rw [← specAllL_flattenCode cs (fun c hc hk => (hcode c hc hk).2.1)]
           show Post (convCodeBlock e r ctx _) _
           unfold convCodeBlock
           have hbody : ((cs.find? (·.kind == .code)).map (·.attrs.disabled)).getD false = false := by
@@ -1194,19 +1201,17 @@ theorem convExpr_frag (e : Env) (r : Rec) (hr : RecOK r Q) (hrM : RecOKM r QM) (
             | some c =>
               have hm := List.mem_of_find?_eq_some hf
               have hck : c.kind = .code := by simpa using List.find?_some hf
-              obtain ⟨ccs, ca, rfl, hdis, _⟩ := hcode c hm hck
-              simp [ANode.attrs, hdis]
+              simp [(hcode c hm hck).1]
           simp only [ANode.children, hbody, Bool.false_eq_true, ↓reduceIte]
           have hnodes : ∀ x ∈ flattenCode cs, inFrag x = true ∧ (isExpr x = true ∨ isPassable x = true) := by
             intro x hx
             unfold flattenCode at hx
             obtain ⟨c, hc, hxc⟩ := List.mem_flatMap.mp hx
             by_cases hk : c.kind = .code
-            · obtain ⟨ccs, ca, rfl, _, hall⟩ := hcode c hc hk
-              simp only [ANode.kind, beq_self_eq_true, ↓reduceIte, ANode.children] at hxc
-              have hcq := inFragL_mem hq.2 hc
-              (first | rw [inFrag_inner_ne _ _ _ (by decide)] at hcq | rw [inFrag_inner_ne _ _ _ (by assumption)] at hcq | skip); simp only [inFrag, Bool.and_eq_true] at hcq
-              refine ⟨inFragL_mem hcq.2 hxc, ?_⟩
+            · obtain ⟨_, _, hall, hfr⟩ := hcode c hc hk
+              have hkb : (c.kind == .code) = true := by simp [hk]
+              simp only [hkb, ↓reduceIte] at hxc
+              refine ⟨hfr x hxc, ?_⟩
               have := List.all_eq_true.mp hall x hxc
               simpa using this
             · have hk' : (c.kind == .code) = false := by simpa using hk
